@@ -30,7 +30,10 @@ HyperDiffusionTerms(D, k, mix) ==
            ELSE { Term(<<"hyper_diffusivity", 0, 0>>, 4, CNeg(SumD(D, LAMBDA d : IkPow(k, d, 4)))) }
 GeneralLinearTerms(D, k, J) == { Term(<<"a", j, 0>>, j, SumD(D, LAMBDA d : IkPow(k, d, j))) : j \in 0..J }
 
-Classes == {"Advection", "Diffusion", "AdvectionDiffusion", "Dispersion", "HyperDiffusion", "GeneralLinear", "Wave"}
+\* spectral differential operators (ex.derivative, build_laplace_operator, build_gradient_inner_product_operator, Poisson):
+\*   d^m/dx_d^m  has symbol (i w k_d)^m ; parameter <<"axis", d, m>> selects one of them
+DerivativeTerms(D, k, J) == { Term(<<"axis", d, m>>, m, IkPow(k, d, m)) : d \in 1..D, m \in 1..J }
+Classes == {"Advection", "Diffusion", "AdvectionDiffusion", "Dispersion", "HyperDiffusion", "GeneralLinear", "Wave", "Derivative"}
 
 \* Linear parts of the semi-linear steppers (the L of u_t = L u + N(u)), from the documented PDEs.  A parameter name may be a
 \* product of constructor arguments ("diffusivity*gamma"); "one" is the constant 1.
@@ -76,6 +79,7 @@ Terms(cls, v, D, k, J) ==
       [] cls = "HyperDiffusion"     -> HyperDiffusionTerms(D, k, v = 1)
       [] cls = "GeneralLinear"      -> GeneralLinearTerms(D, k, J)
       [] cls = "Wave"               -> {}
+      [] cls = "Derivative"         -> DerivativeTerms(D, k, J)
       [] OTHER                      -> SemiTerms(cls, v, D, k)
 
 \* value of a term list at rational parameters: par(c) \in Q, w \in Q
